@@ -13,7 +13,7 @@ theorem sum_map_add {α} (l : List α) (f g : α → Rat) :
   | nil => simp; grind
   | cons a l ih => simp only [List.map_cons, List.sum_cons, ih]; grind
 
-theorem sum_map_neg {α} (l : List α) (f : α → Rat) :
+theorem acc_sum_map_neg {α} (l : List α) (f : α → Rat) :
     (l.map fun a => - f a).sum = - (l.map f).sum := by
   induction l with
   | nil => simp
@@ -171,5 +171,176 @@ theorem costAt_eq_sum_range (c : List Rat) (off : Nat) (x : Vec) :
     simp only [Function.comp, List.getD_cons_succ]
     congr 2
     omega
+
+theorem mem_firstRows (M : List MapRow) (seen : List Nat) (m : MapRow)
+    (hm : m ∈ firstRows M seen) : m ∈ M := by
+  induction M generalizing seen with
+  | nil => simp [firstRows] at hm
+  | cons m' M ih =>
+    unfold firstRows at hm
+    split at hm
+    · exact List.mem_cons_of_mem _ (ih _ hm)
+    · rcases List.mem_cons.mp hm with h | h
+      · exact h ▸ List.mem_cons_self
+      · exact List.mem_cons_of_mem _ (ih _ h)
+
+/-! ### the block of one asset inside the assembled problem -/
+
+@[simp] theorem assemble_c (as : List AssetProblem) (gridI : List Nat) (skip : List String) :
+    (assemble as gridI skip).c = (assembleFrom 0 as).c := rfl
+
+/-- the cost vector does not depend on the running offset -/
+theorem assembleFrom_c_cons (off : Nat) (a : AssetProblem) (as : List AssetProblem) :
+    (assembleFrom off (a :: as)).c = a.c ++ (assembleFrom (off + a.n) as).c := rfl
+
+theorem assembleFrom_mapping_cons (off : Nat) (a : AssetProblem) (as : List AssetProblem) :
+    (assembleFrom off (a :: as)).mapping
+      = a.mapping.map (MapRow.shift off) ++ (assembleFrom (off + a.n) as).mapping := rfl
+
+/-- the rows of the concatenated mapping carrying the name of one asset are exactly the shifted
+    rows of that asset (names distinct, rows carry their asset's name) -/
+theorem filter_assembleFrom_mapping (pre suf : List AssetProblem) (a : AssetProblem) (off : Nat)
+    (hnd : ((pre ++ a :: suf).map (·.name)).Nodup)
+    (hname : ∀ b ∈ pre ++ a :: suf, ∀ m ∈ b.mapping, m.asset = b.name) :
+    (assembleFrom off (pre ++ a :: suf)).mapping.filter (fun m => m.asset == a.name)
+      = a.mapping.map (MapRow.shift (off + (pre.map (·.n)).sum)) := by
+  induction pre generalizing off with
+  | nil =>
+    rw [List.nil_append, assembleFrom_mapping_cons, List.filter_append]
+    have h1 : (a.mapping.map (MapRow.shift off)).filter (fun m => m.asset == a.name)
+        = a.mapping.map (MapRow.shift off) := by
+      apply List.filter_eq_self.mpr
+      intro m hm
+      obtain ⟨m', hm', rfl⟩ := List.mem_map.mp hm
+      simp [hname a (by simp) m' hm']
+    have h2 : (assembleFrom (off + a.n) suf).mapping.filter (fun m => m.asset == a.name) = [] := by
+      apply List.filter_eq_nil_iff.mpr
+      intro m hm
+      obtain ⟨b, hb, m', hm', o, rfl⟩ := mem_assembleFrom_mapping suf _ m hm
+      have hb' : b.name ∈ suf.map (·.name) := List.mem_map.mpr ⟨b, hb, rfl⟩
+      have hnot : a.name ∉ suf.map (·.name) := by
+        simp only [List.nil_append, List.map_cons] at hnd
+        exact (List.nodup_cons.mp hnd).1
+      rw [shift_asset, hname b (by simp [hb]) m' hm']
+      intro h
+      have : b.name = a.name := by simpa using h
+      exact hnot (this ▸ hb')
+    rw [h1, h2]
+    simp
+  | cons b pre ih =>
+    rw [List.cons_append, assembleFrom_mapping_cons, List.filter_append]
+    have hnd' : ((pre ++ a :: suf).map (·.name)).Nodup := by
+      simp only [List.cons_append, List.map_cons] at hnd
+      exact (List.nodup_cons.mp hnd).2
+    have hne : b.name ≠ a.name := by
+      simp only [List.cons_append, List.map_cons] at hnd
+      have hnot := (List.nodup_cons.mp hnd).1
+      intro h
+      apply hnot
+      rw [h]
+      exact List.mem_map.mpr ⟨a, by simp, rfl⟩
+    have h1 : (b.mapping.map (MapRow.shift off)).filter (fun m => m.asset == a.name) = [] := by
+      apply List.filter_eq_nil_iff.mpr
+      intro m hm
+      obtain ⟨m', hm', rfl⟩ := List.mem_map.mp hm
+      rw [shift_asset, hname b (by simp) m' hm']
+      simpa using hne
+    rw [h1, ih (off + b.n) hnd' (fun b' hb' => hname b' (by simp [List.cons_append, hb']))]
+    simp only [List.nil_append, List.map_cons, List.sum_cons]
+    congr 2
+    omega
+
+theorem assembleFrom_c_getD (pre suf : List AssetProblem) (a : AssetProblem) (off j : Nat)
+    (hj : j < a.n) :
+    (assembleFrom off (pre ++ a :: suf)).c.getD ((pre.map (·.n)).sum + j) 0 = a.c.getD j 0 := by
+  induction pre generalizing off with
+  | nil =>
+    rw [List.nil_append, assembleFrom_c_cons]
+    simp only [List.map_nil, List.sum_nil, Nat.zero_add]
+    unfold AssetProblem.n at hj
+    simp [List.getD_eq_getElem?_getD, List.getElem?_append_left hj]
+  | cons b pre ih =>
+    rw [List.cons_append, assembleFrom_c_cons]
+    simp only [List.map_cons, List.sum_cons]
+    have hle : b.c.length ≤ b.n + (pre.map (·.n)).sum + j := by unfold AssetProblem.n; omega
+    rw [List.getD_eq_getElem?_getD, List.getElem?_append_right hle, ← List.getD_eq_getElem?_getD]
+    have : b.n + (pre.map (·.n)).sum + j - b.c.length = (pre.map (·.n)).sum + j := by
+      unfold AssetProblem.n; omega
+    rw [this]
+    exact ih (off + b.n)
+
+/-- **per asset (decomposition form)**: for the asset `a` at position `pre.length`, the DCF total
+    is minus the cost of its block -/
+theorem dcfTotal_block (pre suf : List AssetProblem) (a : AssetProblem) (T : Nat)
+    (hnd : ((pre ++ a :: suf).map (·.name)).Nodup)
+    (hmap : ∀ b ∈ pre ++ a :: suf, ∀ m ∈ b.mapping, m.asset = b.name ∧ m.var < b.n ∧ m.step < T)
+    (hrowless : ∀ j, j < a.n → (∀ m ∈ a.mapping, m.var ≠ j) → a.c.getD j 0 = 0) (x : Vec) :
+    dcfTotal (assembleFrom 0 (pre ++ a :: suf)).c (assembleFrom 0 (pre ++ a :: suf)).mapping a.name T x
+      = - costAt a.c ((pre.map (·.n)).sum) x := by
+  have ha : a ∈ pre ++ a :: suf := by simp
+  unfold dcfTotal dcf assetFirstRows
+  rw [filter_assembleFrom_mapping pre suf a 0 hnd (fun b hb m hm => (hmap b hb m hm).1)]
+  simp only [Nat.zero_add]
+  generalize hoff : (pre.map (·.n)).sum = off
+  generalize hC : (assembleFrom 0 (pre ++ a :: suf)).c = C
+  have hsteps : ∀ m ∈ firstRows (a.mapping.map (MapRow.shift off)) [], m.step < T := by
+    intro m hm
+    obtain ⟨m', hm', rfl⟩ := List.mem_map.mp (mem_firstRows _ _ m hm)
+    rw [shift_step]
+    exact (hmap a ha m' hm').2.2
+  rw [sum_steps_all _ _ T hsteps]
+  have hM : ∀ m ∈ a.mapping.map (MapRow.shift off), ∃ j, j < a.n ∧ m.var = off + j := by
+    intro m hm
+    obtain ⟨m', hm', rfl⟩ := List.mem_map.mp hm
+    exact ⟨m'.var, (hmap a ha m' hm').2.1, rfl⟩
+  have hCj : ∀ j, j < a.n → C.getD (off + j) 0 = a.c.getD j 0 := by
+    intro j hj
+    rw [← hC, ← hoff]
+    exact assembleFrom_c_getD pre suf a 0 j hj
+  have hz : ∀ j, j < a.n → (∀ m ∈ a.mapping.map (MapRow.shift off), m.var ≠ off + j) →
+      (fun v => - (C.getD v 0) * x v) (off + j) = 0 := by
+    intro j hj hno
+    have : a.c.getD j 0 = 0 := by
+      apply hrowless j hj
+      intro m hm hv
+      apply hno (m.shift off) (List.mem_map.mpr ⟨m, hm, rfl⟩)
+      rw [shift_var, hv]
+    show - (C.getD (off + j) 0) * x (off + j) = 0
+    rw [hCj j hj, this]
+    grind
+  have key := firstRows_sum_block (fun v => - (C.getD v 0) * x v) off a.n
+    (a.mapping.map (MapRow.shift off)) hM hz
+  rw [key, costAt_eq_sum_range, ← acc_sum_map_neg]
+  congr 1
+  apply List.map_congr_left
+  intro j hj
+  show - (C.getD (off + j) 0) * x (off + j) = - (a.c.getD j 0 * x (off + j))
+  rw [hCj j (List.mem_range.mp hj)]
+  grind
+
+/-- **sum over a suffix of the asset list**: the DCF totals of the assets of a suffix add up to minus
+    the cost of the suffix' part of the cost vector -/
+theorem dcfTotal_sum_suffix (as : List AssetProblem) (T : Nat)
+    (hnd : (as.map (·.name)).Nodup)
+    (hmap : ∀ b ∈ as, ∀ m ∈ b.mapping, m.asset = b.name ∧ m.var < b.n ∧ m.step < T)
+    (hrowless : ∀ b ∈ as, ∀ j, j < b.n → (∀ m ∈ b.mapping, m.var ≠ j) → b.c.getD j 0 = 0) (x : Vec)
+    (pre suf : List AssetProblem) (h : as = pre ++ suf) :
+    (suf.map fun a => dcfTotal (assembleFrom 0 as).c (assembleFrom 0 as).mapping a.name T x).sum
+      = - costAt (assembleFrom ((pre.map (·.n)).sum) suf).c ((pre.map (·.n)).sum) x := by
+  induction suf generalizing pre with
+  | nil => simp [assembleFrom, costAt]
+  | cons a suf ih =>
+    have h' : as = (pre ++ [a]) ++ suf := by rw [h]; simp
+    have ih' := ih (pre ++ [a]) h'
+    have hsum : (((pre ++ [a]).map (·.n)).sum) = (pre.map (·.n)).sum + a.n := by simp
+    rw [hsum] at ih'
+    rw [List.map_cons, List.sum_cons, ih', assembleFrom_c_cons, costAt_append']
+    have hblock : dcfTotal (assembleFrom 0 as).c (assembleFrom 0 as).mapping a.name T x
+        = - costAt a.c ((pre.map (·.n)).sum) x := by
+      subst h
+      exact dcfTotal_block pre suf a T hnd hmap (hrowless a (by simp)) x
+    rw [hblock]
+    show _ = - (costAt a.c _ x + costAt _ ((pre.map (·.n)).sum + a.n) x)
+    grind
 
 end EAO
